@@ -50,7 +50,7 @@ pub fn roundtrip(
 ) -> (Vec<(String, String)>, Option<Vec<u8>>) {
     let mut fails = Vec::new();
     let window = if prot == Prot::Unsafe {
-        match catch(|| pilota_size(prot, vals, wapi)) {
+        match catch(|| vdrive::drive::pilota_size_zc(prot, vals, wapi, buf == BufKind::LinkedZc)) {
             Caught::Ok(n) => n,
             Caught::Panic(loc, msg) => {
                 fails.push((format!("size|{}", panic_sig(&loc, &msg)), msg));
